@@ -505,7 +505,7 @@ fn seeds() -> Vec<Seed> {
     add("msg09-basic", Kind::Msg, "th09", format!("{MSG09_META}script main {{\n    ins_1(@blob=\"01000200\");\n+60:\n    ins_16(\"text\");\n    ins_0();\n}}\n"), None);
     add("msg12-basic", Kind::Msg, "th12", format!("meta {{\n    table_len: 4,\n    table: {{0: {{script: \"main\", flags: 256}}, default: {{script: \"main\", flags: 3}}}},\n}}\nscript main {{\n    ins_2();\n5:\n    ins_17(\"line one\");\n    ins_0();\n}}\n"), None);
     add("end10-basic", Kind::End, "th10", format!("{MSG06_META}script main {{\n    ins_3(\"a line\");\n+30:\n    ins_5(1);\n    ins_0();\n}}\n"), None);
-    add("msg06-escapes", Kind::Msg, "th06", format!("meta {{\n    table: {{1: {{script: \"b\"}}, 0: {{script: \"a\"}}}},\n}}\nscript a {{\n    ins_3(0, 0, \"he said \\\"hi\\\"\\n\");\n    ins_8(1, \"日本語\");\n}}\nscript b {{\n-1:\n    ins_0();\n}}\n"), None);
+    add("msg06-escapes", Kind::Msg, "th06", format!("meta {{\n    table: {{1: {{script: \"b\"}}, 0: {{script: \"a\"}}}},\n}}\nscript a {{\n    ins_3(0, 0, \"he said \\\"hi\\\"\\n\");\n    ins_8(1, 0, \"日本語\");\n}}\nscript b {{\n-1:\n    ins_0();\n}}\n"), None);
     add("mission095", Kind::Mission, "th095", "entry { stage: 1, scene: 2, face: 3, point: 4, text: [\"abc\", \"\", \"line three\"] }\nentry { stage: 10, scene: 6, face: 0, point: 1234567, text: [\"x\", \"y\", \"z\"] }\n".into(), None);
     add("mission125", Kind::Mission, "th125", "entry { stage: 1, scene: 2, player: 1, unknown_1: 7, unknown_2: 9, point_1: 3, point_2: 4,\n        furigana: [[1, 2], [3, 4], [5, 6]], text: [\"abc\", \"\", \"line three\", \"d\", \"e\", \"f\"] }\n".into(), None);
     // ---- truecl (olde)
